@@ -335,7 +335,8 @@ def _run_case(case):
             for i in range(m):
                 r = rng.random()
                 if fam == "mixmag" and (i == 0 or r < 0.3):
-                    big = 10.0 ** rng.uniform(3, 15)
+                    big = 10.0 ** (rng.uniform(3, 15) if rng.random() < 0.75
+                                   else rng.uniform(100, 305))
                     k = int(rng.integers(4))
                     lo[i], hi[i] = [(-big, big), (-math.inf, big),
                                     (-big, math.inf),
